@@ -16,6 +16,6 @@ echo "== demo without change (expected to pass)"; cargo test --offline --test $D
 git apply $OUT/patch.diff
 echo "== check against /repo with the change"
 cd /repo && git apply $OUT/patch.diff || { echo "patch does not apply to /repo"; exit 2; }
-cd /verif && ./check $PROP quick | tee $OUT/check_output.txt; echo "exit=$?" >> $OUT/check_output.txt
+cd /verif && ./check $PROP quick > $OUT/check_output.txt; echo "exit=$?" >> $OUT/check_output.txt; cat $OUT/check_output.txt
 git -C /repo checkout -- . 
 git -C /repo status --short
